@@ -108,6 +108,9 @@ pub enum Case {
     Slice { array: bool, bufs: Vec<BufSpec>, limit: Option<Limit> },
     /// Vectored `BufMutSlice`.
     MutSlice { array: bool, bufs: Vec<MutSpec>, limit: Option<Limit>, n: u16, extend: u16 },
+    /// `ReadBuf` (a pool buffer the simulated kernel filled) as `Buf` and
+    /// `BufMut`, bare and under a limit, at generated fill levels.
+    ReadBuf(super::c14_readbuf::RbCase),
 }
 
 /// Wrapper delegating to a10's implementation for each provided buffer type,
@@ -779,6 +782,7 @@ impl Property for C14 {
             2 => (mut_spec(), any::<u16>(), any::<u16>()).prop_map(|(spec, n, extend)| Case::SingleMut { spec, n, extend }),
             3 => (any::<bool>(), proptest::collection::vec(buf_spec(), 1..=8), proptest::option::weighted(0.5, limit_strategy())).prop_map(|(array, bufs, limit)| Case::Slice { array, bufs, limit }),
             3 => (any::<bool>(), proptest::collection::vec(mut_spec(), 1..=8), proptest::option::weighted(0.5, limit_strategy()), any::<u16>(), any::<u16>()).prop_map(|(array, bufs, limit, n, extend)| Case::MutSlice { array, bufs, limit, n, extend }),
+            1 => super::c14_readbuf::strategy().prop_map(Case::ReadBuf),
         ]
         .boxed()
     }
@@ -789,6 +793,7 @@ impl Property for C14 {
 
     fn run(case: &Case, ctx: &mut Ctx) {
         let (res, shape, huge) = match case {
+            Case::ReadBuf(rb) => (super::c14_readbuf::run(rb, ctx), "readbuf".to_string(), false),
             Case::Single(spec) => {
                 let (buf, truth) = build(spec, 3);
                 let what = if spec.limit.is_some() { "limited-buf" } else { "buf" };
@@ -828,11 +833,11 @@ impl Property for C14 {
     }
 
     fn rule() -> &'static str {
-        "proptest over every provided Buf/BufMut/BufSlice/BufMutSlice implementation and wrapper (Vec, Box<[u8]>, String, Box<str>, &'static [u8]/str, Cow (both variants), Arc<[u8]>/<str>, StaticBuf, arrays [B; 1..8], tuples of arity 2..8 with mixed element types, LimitedBuf over all of them incl. nested) with generated contents, capacities, fill levels, n, and limits from a boundary-heavy distribution over the whole usize range (len+-3, 2^32+-k, usize::MAX, arbitrary). Oracle: every exposed (ptr,len) lies inside the owning allocation / spare part, len()/is_empty()/total_len()/spare_capacity()/total_spare_capacity()/has_spare_capacity() agree with the pairs, set_init(n)/extend_from_slice append exactly n bytes in order across buffers, the exposed total never exceeds the limit and set_init lowers the remaining limit by n. Non-trivial = arity>=2 with an empty/zero-spare element in the middle, or a limit within +-1 of a buffer boundary, or a limit >= 2^32, or a buffer filled exactly. Distinct = (shape, classes, 16-bit case hash)."
+        "proptest over every provided Buf/BufMut/BufSlice/BufMutSlice implementation and wrapper (Vec, Box<[u8]>, String, Box<str>, &'static [u8]/str, Cow (both variants), Arc<[u8]>/<str>, StaticBuf, ReadBuf (one case in eleven: a pool buffer filled by the simulated kernel, then truncate / set_init through the exposed pointer / the trait's extend_from_slice / a LimitedBuf around it, checked after every step: Buf::parts is the slot start and the length, BufMut::parts_mut is slot start + length with exactly the spare bytes or the limit, spare_capacity/has_spare_capacity agree, appended bytes land in order, neighbouring slots keep their canaries; an unfilled ReadBuf exposes nothing), arrays [B; 1..8], tuples of arity 2..8 with mixed element types, LimitedBuf over all of them incl. nested) with generated contents, capacities, fill levels, n, and limits from a boundary-heavy distribution over the whole usize range (len+-3, 2^32+-k, usize::MAX, arbitrary). Oracle: every exposed (ptr,len) lies inside the owning allocation / spare part, len()/is_empty()/total_len()/spare_capacity()/total_spare_capacity()/has_spare_capacity() agree with the pairs, set_init(n)/extend_from_slice append exactly n bytes in order across buffers, the exposed total never exceeds the limit and set_init lowers the remaining limit by n. Non-trivial = arity>=2 with an empty/zero-spare element in the middle, or a limit within +-1 of a buffer boundary, or a limit >= 2^32, or a buffer filled exactly. Distinct = (shape, classes, 16-bit case hash)."
     }
 
     fn assumptions() -> Vec<&'static str> {
-        vec!["buffers are built by the harness so their allocation bounds are known; SkipBuf/ReadNBuf (crate-private) are exercised through the composite futures in C10; ReadBuf in C15"]
+        vec!["buffers are built by the harness so their allocation bounds are known; SkipBuf/ReadNBuf (crate-private) are exercised through the composite futures in C10; ReadBuf's own editing API in C15"]
     }
 
     fn shards(tier: Tier) -> u32 {
